@@ -14,7 +14,11 @@ evaluated with mpmath) and compared with what torch.autograd.grad delivers throu
   * CiqVariationalStrategy + NaturalVariationalDistribution (_NgdInterpTerms): one inducing value against the Coq
     model; general case (gradients to natural_vec / natural_mat / hyperparameters through weighted mean+variance+KL, KL
     alone, VariationalELBO) against torch autograd of a dense closed form in the expectation parameters;
-  * ExactGP predictions: autograd gradient w.r.t. test inputs vs central differences."""
+  * ExactGP predictions: autograd gradient w.r.t. test inputs vs central differences;
+  * INPUT gradients when x1 and x2 hold equal values but are different tensors with different requires_grad flags (x1 only,
+    x2 only, both, neither) x hyperparameters trainable / frozen: gradient to each argument against the chain rule on the
+    model's derivative (c19_*_input_gradient_chain) and central differences; exact-GP posterior gradients at test inputs
+    that coincide with training inputs (frozen and trainable hyperparameters)."""
 import json
 import math
 import random
@@ -317,6 +321,193 @@ def check_input_grads(out, case, tag, r, dks, ls, entries, G1, G2t, pts, desc):
                                  "d/dx1[%d][%d] of sum(G*K): autograd %.12g, chain rule on the model's derivative %.12g"
                                  % (i, m, gv, float(want[xb][i][m])), desc, impl=gx, model=[[[float(v) for v in row] for row in bb] for bb in want])
                         return
+
+
+# --------------------------------------------------------------------------- equal values, different requires_grad flags
+# k(x1, x2) where x1 and x2 are DIFFERENT tensors that hold (partly) equal VALUES - test inputs coinciding with training inputs -
+# and every combination of requires_grad flags: x1 only, x2 only, both, neither, each with the hyperparameters trainable and
+# frozen.  The gradient delivered to each input must be the derivative with respect to THAT argument (the other one held fixed):
+# reference = chain rule on the Coq model's d k / d lengthscale per pair (c19_*_input_gradient_chain), and central differences
+# of the implementation's own forward values.
+
+FLAG_VARIANTS = ["equal", "equal", "one-row-differs", "permuted", "subset"]
+
+
+def gen_flag_cases(rng, tier):
+    cases = []
+    reps = 1 if tier == "quick" else 4
+    k = 0
+    for _ in range(reps):
+        for fam in FAMS:
+            for flags in ((1, 0), (0, 1), (1, 1), (0, 0)):
+                for hyper in (False, True):
+                    for variant in FLAG_VARIANTS:
+                        k += 1
+                        d = rng.randint(1, 3)
+                        n = rng.randint(2, 4)
+                        dec = [-1, 0, 1][k % 3]
+                        l0 = 2.0 ** round(math.log2(10.0 ** dec))
+                        ls = [10.0 ** dec * rng.uniform(0.5, 2.0)]
+                        x1 = []
+                        while len(x1) < n:                  # distinct rows
+                            p = [l0 * rng.randint(-16, 16) / 8.0 for _ in range(d)]
+                            if p not in x1:
+                                x1.append(p)
+                        x2 = [list(r) for r in x1]
+                        if variant == "one-row-differs":
+                            x2[rng.randrange(n)][rng.randrange(d)] += l0 * rng.choice([-1, 1]) * rng.randint(1, 8) / 8.0
+                        elif variant == "permuted":
+                            x2 = x2[1:] + x2[:1]
+                        elif variant == "subset":
+                            x2 = x2[:max(1, n - 1)]
+                        call = "diag" if (variant in ("equal", "one-row-differs") and k % 4 == 0) else "full"
+                        G = [[rng.gauss(0, 1) for _ in range(len(x2))] for _ in range(n)]
+                        cases.append(dict(kind="kernel-flags", fam=fam, d=d, dec=dec, ls=ls, batch="none", x1=[x1], x2=[x2], call=call,
+                                          variant=variant, flags=list(flags), hyper=hyper, G=[G]))
+    return cases
+
+
+def check_kernel_flags(out, case, kern, results):
+    fam, call, variant = case["fam"], case["call"], case["variant"]
+    gx1, gx2 = case["flags"]
+    hyper = case["hyper"]
+    diag = call == "diag"
+    xa, xc = case["x1"][0], case["x2"][0]
+    n1, n2, d = len(xa), len(xc), case["d"]
+    l = kern.lengthscale.detach().reshape(-1).tolist()[0]
+    rd = C.Reader(results[0])
+    val = [[None] * n2 for _ in range(n1)]
+    dk = [[None] * n2 for _ in range(n1)]
+    for i in range(n1):
+        for j in range(n2):
+            val[i][j] = rd.expr()
+            dk[i][j] = rd.expr()
+    assert rd.done()
+    entries = [(i, i) for i in range(n1)] if diag else [(i, j) for i in range(n1) for j in range(n2)]
+    desc = dict(case=case)
+    tag = "%s:%s:%s:x1grad=%d:x2grad=%d:hyper=%s" % (fam, call, variant, gx1, gx2, "trainable" if hyper else "frozen")
+    G = torch.tensor(case["G"][0])
+    mask = torch.ones_like(G)
+    if fam == "matern05":                      # kink at coincident pairs: they get no weight (the other pairs are compared exactly)
+        for i in range(n1):
+            for j in range(n2):
+                if xa[i] == xc[j]:
+                    mask[i, j] = 0.0
+    G = G * mask
+    G2 = second_cotangent(G) * mask
+
+    def call_kernel(x1, x2):
+        return kern(x1, x2, diag=True) if diag else kern(x1, x2).to_dense()
+
+    def cotv(Gk):
+        return Gk.diagonal(dim1=-1, dim2=-2) if diag else Gk
+    x1 = torch.tensor(xa)
+    x2 = torch.tensor(xc)                       # a different tensor, equal values for variant "equal"
+    x1.requires_grad_(bool(gx1))
+    x2.requires_grad_(bool(gx2))
+    kern.raw_lengthscale.requires_grad_(bool(hyper))
+    try:
+        try:
+            Kd = call_kernel(x1, x2)
+            inputs = ([x1] if gx1 else []) + ([x2] if gx2 else []) + ([kern.raw_lengthscale] if hyper else [])
+            names = (["x1"] if gx1 else []) + (["x2"] if gx2 else []) + (["l"] if hyper else [])
+            if inputs and Kd.requires_grad:
+                r = [torch.autograd.grad(Kd, inputs, grad_outputs=cotv(Gk), retain_graph=True, allow_unused=True) for Gk in (G, G2, G)]
+                r = [[torch.zeros_like(t) if g_ is None else g_ for g_, t in zip(rr, inputs)] for rr in r]
+            else:
+                if inputs and not (diag and variant == "equal"):
+                    out.fail("kernel-flags:%s:not-differentiable" % tag, "the kernel output does not require grad although %s do"
+                             % "/".join(names), desc)
+                    return True
+                r = [[torch.zeros_like(t) for t in inputs]] * 3
+            chain = None
+            if hyper:
+                (chain,) = torch.autograd.grad(kern.lengthscale.sum(), kern.raw_lengthscale)
+            Kv = Kd.detach()
+            # central differences of the forward values (no graph), cotangent G
+            fd = {}
+            with torch.no_grad():
+                h = 1e-4 * l
+                for nm, base in (("x1", x1.detach()), ("x2", x2.detach())):
+                    if nm not in names:
+                        continue
+                    g = torch.zeros_like(base)
+                    for i in range(base.shape[0]):
+                        for m in range(d):
+                            e = torch.zeros_like(base)
+                            e[i, m] = h
+                            a = (base + e, x2.detach()) if nm == "x1" else (x1.detach(), base + e)
+                            b = (base - e, x2.detach()) if nm == "x1" else (x1.detach(), base - e)
+                            g[i, m] = ((call_kernel(*a) - call_kernel(*b)) * cotv(G)).sum() / (2 * h)
+                    fd[nm] = g
+        except Exception as e:
+            out.fail("kernel-flags:%s:exception:%s" % (tag, type(e).__name__), "public kernel call / autograd raised %r" % (e,), desc)
+            return True
+    finally:
+        kern.raw_lengthscale.requires_grad_(True)
+    shp = (n1,) if diag else (n1, n2)
+    if tuple(Kv.shape) != shp:
+        out.fail("kernel-flags:%s:shape" % tag, "kernel output has shape %s" % (list(Kv.shape),), desc)
+        return True
+    for (i, j) in entries:
+        kij = (Kv[i] if diag else Kv[i, j]).item()
+        at = VAL_ATOL_COINCIDENT if (fam != "rbf" and xa[i] == xc[j]) else 1e-12
+        if not C.close(kij, val[i][j], at, VAL_RTOL):
+            out.fail("kernel-flags:%s:value" % tag, "kernel value differs from the forward function at entry (%d,%d): impl %.12g model %.12g"
+                     % (i, j, kij, float(val[i][j])), desc)
+            break
+    if not inputs:
+        return True
+    for t0, t2, nm in zip(r[0], r[2], names):
+        if not torch.equal(t0, t2):
+            out.fail("kernel-flags:%s:%s-grad:repeated-backward" % (tag, nm), "backward with the same upstream gradient through the same graph "
+                     "gave different gradients the first and the third time", desc, impl=t2, model=t0)
+    for which, Gk, rr in (("", G, r[0]), (":second-backward", G2, r[1])):
+        cot = Gk.tolist()
+        want = {"x1": [[mpmath.mpf(0)] * d for _ in range(n1)], "x2": [[mpmath.mpf(0)] * d for _ in range(n2)]}
+        scale = {"x1": [0.0] * n1, "x2": [0.0] * n2}
+        wl = mpmath.mpf(0)
+        for (i, j) in entries:
+            c = cot[i][j]
+            wl += mpmath.mpf(c) * dk[i][j]
+            scale["x1"][i] += abs(c) / l
+            scale["x2"][j] += abs(c) / l
+            D2 = sum((mpmath.mpf(xa[i][m]) - mpmath.mpf(xc[j][m])) ** 2 for m in range(d))
+            if D2 == 0:
+                continue                         # derivative 0 at coincident pairs (Matern-1/2: weight 0)
+            for m in range(d):
+                t = -c * dk[i][j] * l * (mpmath.mpf(xa[i][m]) - mpmath.mpf(xc[j][m])) / D2
+                want["x1"][i][m] += t
+                want["x2"][j][m] -= t
+        for g, nm in zip(rr, names):
+            if not torch.isfinite(g).all():
+                out.fail("kernel-flags:%s:%s-grad:non-finite" % (tag, nm), "gradient of sum(G*K) w.r.t. %s contains NaN / inf" % nm, desc, impl=g)
+                continue
+            if nm == "l":
+                gv = (g / chain).reshape(-1).tolist()[0]
+                S = sum(abs(cot[i][j]) for (i, j) in entries) / l
+                if not abs(gv - float(wl)) <= GRAD_TOL_GENERIC * max(S, 1e-300):
+                    out.fail("kernel-flags:%s:lengthscale-grad%s" % (tag, which), "d/d lengthscale of sum(G*K): autograd %.12g, model %.12g"
+                             % (gv, float(wl)), desc, impl=gv, model=float(wl))
+                continue
+            W = want[nm]
+            bad = None
+            for i in range(len(W)):
+                for m in range(d):
+                    if not abs(g[i, m].item() - float(W[i][m])) <= GRAD_TOL_GENERIC * max(scale[nm][i], 1e-6 * max(scale[nm]), 1e-300):
+                        bad = bad or (i, m, g[i, m].item(), float(W[i][m]))
+            if bad:
+                out.fail("kernel-flags:%s:%s-grad%s" % (tag, nm, which),
+                         "d/d%s[%d][%d] of sum(G*K(x1,x2)) (the other argument held fixed): autograd %.12g, chain rule on the model's "
+                         "derivative %.12g" % ((nm,) + bad), desc, impl=g, model=[[float(v) for v in row] for row in W])
+            if which == "" and nm in fd:
+                # (rows whose pairs all carry weight 0 have scale 0: rounding noise of the differences is measured against the largest row)
+                sc = torch.tensor(scale[nm]).clamp_min(1e-4 * max(scale[nm]) + 1e-300).unsqueeze(-1)
+                if not bool(((g - fd[nm]).abs() <= 2e-5 * sc).all()):
+                    out.fail("kernel-flags:%s:%s-grad:central-differences" % (tag, nm),
+                             "gradient of sum(G*K) w.r.t. %s differs from central differences of the forward values (max %.3g)"
+                             % (nm, (g - fd[nm]).abs().max().item()), desc, impl=g, model=fd[nm])
+    return True
 
 
 # --------------------------------------------------------------------------- log normal cdf
@@ -896,15 +1087,128 @@ def check_pred(out, case):
     return True
 
 
+def gen_pred_coincident(rng, tier):
+    """frozen / trainable exact GP, test inputs that COINCIDE with training inputs (plus one generic row)"""
+    reps = 2 if tier == "quick" else 10
+    cases = []
+    for k in range(reps):
+        for fam in ("rbf", "matern15", "matern25"):
+            for frozen in (True, False):
+                d = rng.randint(1, 3)
+                n = rng.randint(3, 5)
+                X = []
+                while len(X) < n:
+                    p = [rng.randint(-16, 16) / 8.0 for _ in range(d)]
+                    if p not in X:
+                        X.append(p)
+                t = rng.randint(1, n)
+                xs = [list(X[i]) for i in rng.sample(range(n), t)]
+                if rng.random() < 0.5:
+                    xs.append([rng.randint(-16, 16) / 8.0 + 1 / 16.0 for _ in range(d)])
+                cases.append(dict(kind="pred-coincident", fam=fam, d=d, X=X, xs=xs, frozen=frozen, ls=rng.uniform(0.6, 1.6),
+                                  os=rng.uniform(0.5, 2.0), c=rng.uniform(-0.5, 0.5), seed=rng.randrange(10 ** 6)))
+    return cases
+
+
+def build_pred_coincident(case):
+    gen = torch.Generator().manual_seed(case["seed"])
+    X = torch.tensor(case["X"])
+    y = torch.randn(X.shape[0], generator=gen)
+    kern = K.RBFKernel() if case["fam"] == "rbf" else K.MaternKernel(nu=FAMS[case["fam"]] / 2.0)
+    kern.lengthscale = case["ls"]
+    lik = gpytorch.likelihoods.GaussianLikelihood()
+    lik.noise = 0.1
+    model = _GP(X, y, lik, kern)
+    model.covar_module.outputscale = case["os"]
+    model.mean_module.constant.data.fill_(case["c"]) if hasattr(model.mean_module, "constant") else None
+    model.eval()
+    lik.eval()
+    t = len(case["xs"])
+    return dict(model=model, kern=kern, X=X, y=y, w=torch.randn(t, generator=gen), v=torch.randn(t, generator=gen))
+
+
+def check_pred_coincident(out, case, results):
+    import warnings
+    B = case["_built"]
+    model, kern, X, y, w, v = B["model"], B["kern"], B["X"], B["y"], B["w"], B["v"]
+    xs_l, X_l, d = case["xs"], case["X"], case["d"]
+    t, n = len(xs_l), len(X_l)
+    l = kern.lengthscale.detach().reshape(-1).tolist()[0]
+    rd = C.Reader(results[0])
+    dk = [[None] * n for _ in range(t)]
+    for i in range(t):
+        for j in range(n):
+            rd.expr()
+            dk[i][j] = rd.expr()
+    assert rd.done()
+    desc = dict(case={k_: v_ for k_, v_ in case.items() if k_ != "_built"})
+    tag = "%s:%s" % (case["fam"], "frozen" if case["frozen"] else "trainable")
+    for p_ in model.parameters():
+        p_.requires_grad_(not case["frozen"])
+    Xs = torch.tensor(xs_l)
+
+    def f(x, var=True):
+        with warnings.catch_warnings(), gs.fast_pred_var(False), gs.detach_test_caches(False):
+            warnings.simplefilter("ignore")
+            p = model(x)
+            return (w * p.mean).sum() + ((v * p.variance).sum() if var else 0.0)
+    with torch.no_grad():
+        osc = model.covar_module.outputscale.item()
+        cst = model.mean_module(X)[0].item()
+        A = osc * kern(X).to_dense() + model.likelihood.noise.item() * torch.eye(n)
+        alpha = torch.linalg.solve(A, y - cst)
+    xs = Xs.clone().requires_grad_(True)
+    (gm,) = torch.autograd.grad(f(xs, var=False), xs)
+    xs = Xs.clone().requires_grad_(True)
+    (gt,) = torch.autograd.grad(f(xs), xs)
+    ok = True
+    for i in range(t):
+        sc = abs(w[i].item()) * osc * alpha.abs().sum().item() / l
+        for m in range(d):
+            want = mpmath.mpf(0)
+            for j in range(n):
+                D2 = sum((mpmath.mpf(xs_l[i][q]) - mpmath.mpf(X_l[j][q])) ** 2 for q in range(d))
+                if D2 == 0:
+                    continue
+                want += -alpha[j].item() * dk[i][j] * l * (mpmath.mpf(xs_l[i][m]) - mpmath.mpf(X_l[j][m])) / D2
+            want = float(want) * w[i].item() * osc
+            if not abs(gm[i, m].item() - want) <= 10 * GRAD_TOL_GENERIC * max(sc, 1e-300):
+                out.fail("prediction-grad-at-training-inputs:%s:mean" % tag, "d/dx*[%d][%d] of w . posterior mean at test inputs equal to training "
+                         "inputs: autograd %.12g, closed form (chain rule on the model's kernel derivative) %.12g" % (i, m, gm[i, m].item(), want),
+                         desc, impl=gm)
+                ok = False
+                break
+        if not ok:
+            break
+    h = 1e-5
+    fd = torch.zeros_like(Xs)
+    with torch.no_grad():
+        for i in range(t):
+            for m in range(d):
+                e = torch.zeros_like(Xs)
+                e[i, m] = h
+                fd[i, m] = (f(Xs + e) - f(Xs - e)) / (2 * h)
+    scale = 1.0 + fd.abs().max().item()
+    if not torch.allclose(gt, fd, rtol=0, atol=FD_TOL * scale):
+        out.fail("prediction-grad-at-training-inputs:%s:central-differences" % tag, "autograd gradient of w.mean + v.variance w.r.t. test inputs "
+                 "equal to training inputs differs from central differences (max %.3g)" % (gt - fd).abs().max().item(), desc, impl=gt, model=fd)
+    return True
+
+
 # --------------------------------------------------------------------------- run / replay
 
 def run_items(out, items, record=True):
     """items: list of case dicts; runs the model for those that have one, then all checks"""
     coq, owner, kerns = [], [], {}
     for idx, case in enumerate(items):
-        if case["kind"] == "kernel":
+        if case["kind"] in ("kernel", "kernel-flags"):
             kerns[idx] = build_kernel(case)
             cs = kernel_coq_cases(case, kerns[idx])
+        elif case["kind"] == "pred-coincident":
+            case["_built"] = build_pred_coincident(case)
+            lv = case["_built"]["kern"].lengthscale.detach().reshape(-1).tolist()[0]
+            job = "(DRBF %s)" % C.qc_lit(lv) if case["fam"] == "rbf" else "(DMatern %d%%nat %s)" % (FAMS[case["fam"]], C.qc_lit(lv))
+            cs = ["(%s, %s, %s)" % (job, qm(case["xs"]), qm(case["X"]))]
         elif case["kind"] == "lncdf":
             cs = ["(DLnCdf, [[%s]], %s)" % (C.qc_lit(case["z"]), NOX2)]
         elif case["kind"] == "lncdf-vec":
@@ -926,6 +1230,13 @@ def run_items(out, items, record=True):
             if case["kind"] == "kernel":
                 nt = check_kernel(out, case, kerns[idx], r)
                 label = "kernel:%s:%s:%s:dec=%d" % (case["fam"], case["call"], case["batch"], case["dec"])
+            elif case["kind"] == "kernel-flags":
+                nt = check_kernel_flags(out, case, kerns[idx], r)
+                label = "kernel-flags:%s:%s:x1grad=%d:x2grad=%d:hyper=%s" % (case["fam"], case["variant"], case["flags"][0], case["flags"][1],
+                                                                             "trainable" if case["hyper"] else "frozen")
+            elif case["kind"] == "pred-coincident":
+                nt = check_pred_coincident(out, case, r)
+                label = "prediction-grad-at-training-inputs:%s:%s" % (case["fam"], "frozen" if case["frozen"] else "trainable")
             elif case["kind"] == "lncdf":
                 nt = check_lncdf(out, case, r[0])
                 label = "lncdf:" + lncdf_branch(case["z"])
@@ -949,11 +1260,13 @@ def run_items(out, items, record=True):
                 label = "prediction-grad:" + case["fam"]
         except Exception as e:
             import traceback
+            case.pop("_built", None)
             out.fail("%s:exception:%s" % (case["kind"], type(e).__name__), "check raised: " + traceback.format_exc()[-800:],
                      dict(case=case))
             nt, label = False, case["kind"] + ":exception"
+        case.pop("_built", None)
         if record:
-            small = {k: v for k, v in case.items() if k not in ("G",)}
+            small = {k: v for k, v in case.items() if k not in ("G", "_built")}
             out.case(small, True, label=label)
 
 
@@ -968,6 +1281,8 @@ def run(out, ctx):
     items += gen_lncdf(rng, tier)
     items += gen_nat(rng, tier)
     items += gen_pred(rng, tier)
+    items += gen_flag_cases(rng, tier)
+    items += gen_pred_coincident(rng, tier)
     items += gen_ciq(rng, tier)
     items += gen_ciq1(rng, tier)
     out.rule = ("RBF and Matern nu in {1/2,3/2,5/2}: d in 1..3, n1, n2 in 1..4, lengthscale 10^k*U(0.5,2) for every "
@@ -983,6 +1298,13 @@ def run(out, ctx):
                 "log_normal_cdf: near-zero, ordinary, tail start (-5.5,-5), far-tail (< -5.5) and branch boundaries, every scalar "
                 "case with a random-magnitude upstream gradient of alternating sign, plus vector-Jacobian products of one call "
                 "on a matrix mixing all branches with a random-sign non-constant cotangent. "
+                "Equal values / different requires_grad flags: k(x1, x2) and k(x1, x2, diag=True) with x2 a DIFFERENT tensor holding the "
+                "same rows as x1 (also: one row changed, rows permuted, a subset), for every combination of x1.requires_grad, "
+                "x2.requires_grad and hyperparameters trainable / frozen, all four kernels: values, the gradient delivered to EACH "
+                "input (the other held fixed) and to the lengthscale against the chain rule on the model's derivative and against "
+                "central differences, two cotangents + repeated backward; exact-GP posterior mean / variance gradients at test "
+                "inputs that coincide with training inputs, hyperparameters frozen and trainable, against the closed form "
+                "(model's kernel derivative, alpha from a dense solve) and central differences. "
                 "Natural / tril-natural distributions: n=1 and diagonal against the Coq model, full n<=5 (also "
                 "batched) against autograd of a re-implementation. Prediction gradients vs central differences. "
                 "CIQ-NGD (CiqVariationalStrategy + NaturalVariationalDistribution): M in 2..5 separated inducing points with "
